@@ -261,7 +261,7 @@ def end_to_end(ctx):
             methods = ["GET", "PUT", "DELETE", "PROPFIND", "MKCOL", "MKCALENDAR", "MOVE", "REPORT", "PROPPATCH", "HEAD", "OPTIONS", "POST"]
             for i in range(n):
                 method = methods[i % len(methods)]
-                channel = rng.choice(["path", "path", "dest", "href", "href-reserved", "token", "script", "login", "reserved", "web", "hookpath"])
+                channel = rng.choice(["path", "path", "dest", "href", "href-reserved", "token", "script", "login", "reserved", "web", "hookpath", "uid"])
                 path = "/u/cal/a.ics"
                 env = {}
                 body = None
@@ -269,6 +269,20 @@ def end_to_end(ctx):
                 hostile = gen_path(rng)
                 if channel == "path":
                     path = hostile
+                elif channel == "uid":
+                    # whole-collection upload: the item file names are derived from the UIDs in the body
+                    method = "PUT"
+                    path = "/u/up%d/" % i
+                    uids = [rng.choice([".Radicale.hidden", ".Radicale.cache", ".Radicale.props", ".x", "x~", "~", "..", ".", "a/b", "../../decoy/secret",
+                                        "a\\b", ".Radicale.lock", ".Radicale.tmp-1", "ok", "é", "con", "a" * 300, " ", ""]) for _ in range(rng.randint(1, 3))]
+                    if rng.random() < 0.5:
+                        body = "BEGIN:VCALENDAR\r\nVERSION:2.0\r\nPRODID:x\r\n" + "".join(
+                            "BEGIN:VEVENT\r\nUID:%s\r\nDTSTAMP:20240101T000000Z\r\nDTSTART:20240102T100000Z\r\nSUMMARY:s\r\nEND:VEVENT\r\n" % u
+                            for u in dict.fromkeys(uids)) + "END:VCALENDAR\r\n"
+                        env["CONTENT_TYPE"] = "text/calendar"
+                    else:
+                        body = "".join("BEGIN:VCARD\r\nVERSION:3.0\r\nUID:%s\r\nFN:f\r\nN:f;;;;\r\nEND:VCARD\r\n" % u for u in dict.fromkeys(uids))
+                        env["CONTENT_TYPE"] = "text/vcard"
                 elif channel == "hookpath":
                     # the only request whose path reaches the hook (%(path)s): PUT, with shell text in the item or collection name
                     method = "PUT"
